@@ -14,7 +14,18 @@ Two families of cases, both decided by a differential oracle against CPython its
 
 * context cases: generated methods / classmethods / functions whose bodies nest if / for / while
   (plus continue / break / early return, which add more functionalised bodies) to depth <= 3 and
-  call eval, locals, globals, zero-argument super at drawn places; original vs converted.
+  call eval, locals, globals, zero-argument super at drawn places; original vs converted. Each
+  call sits in a drawn syntactic position: directly in out.append(...), nested in the argument list
+  of print(...) (positional, first, keyword value, starred, inside a further call; print is left
+  un-overloaded unless BUILTIN_FUNCTIONS is requested - both settings are drawn), of a user / builtin
+  call, in a display or f-string, in a lazily evaluated operand (conditional expression, and/or,
+  while test), an if test, a for iterable, a with item or body, a try body. eval additionally gets
+  drawn namespace arguments: globals omitted / None / empty dict (literal, dict(), dict subclass,
+  a variable inspected afterwards) / non-empty / globals() / falsy and truthy non-dicts, locals
+  omitted / None / empty dict / empty non-dict mapping / binding / shadowing / locals() / user
+  mapping / falsy non-mapping, over expressions reading locals, module globals, builtins or names
+  only the explicit namespace binds; NameError / TypeError outcomes are part of the observation,
+  and so is the text the print(...) calls wrote.
 """
 import functools
 import io
@@ -49,7 +60,9 @@ ASSUMPTIONS = [
     'when the reference raises, only the exception type and the output are compared (not which user callbacks ran before the rejection)',
     'no overrides registered in the py_builtins type registries (the property is about ordinary Python values)',
     'exception messages are not compared, only the exception type; conversion status is the default (UNSPECIFIED) context',
-    'context programs read only definitely-bound names and keep every dynamically probed name also syntactically read in the same block (known finding F07 otherwise); eval is called with 1 argument, a code object, or 3 non-None arguments (findings F28/F29 otherwise)',
+    'context programs read only definitely-bound names and keep every dynamically probed name also syntactically read in the same block - for operands the converter turns into functions of their own (conditional expression, and/or, while test) in that same operand (known finding F07 otherwise)',
+    'eval is called positionally with 1-3 arguments (CPython 3.12 rejects eval keywords whatever the values); a namespace argument CPython rejects (non-dict globals, non-mapping locals) must be rejected with the same exception type',
+    'zero-argument super() is not placed in the arguments of a with-item context-manager call inside a functionalised body (finding FC14c: those arguments are left unconverted); it is placed in the with body instead',
     'extra converter-generated names in locals() are tolerated; only the user names probed are compared',
 ]
 LEVEL_TEXT = ('Randomised differential exploration of call shape x value family x route for the 13 substituted builtins and of '
@@ -58,7 +71,7 @@ LEVEL_TEXT = ('Randomised differential exploration of call shape x value family 
               'route on each run. No claim beyond the cases counted.')
 LEVEL_NOTE = ('Trusted: CPython as reference, the value-spec builder (both sides built from the same spec), PYTHONHASHSEED=0 for set '
               'order. Out of reach: values outside the listed families (numpy, tensors), registered type overrides, DISABLED '
-              'conversion context, eval/locals inside comprehensions, lambdas or nested defs.')
+              'conversion context, eval/locals inside comprehensions, user lambdas or nested defs, decorators and default values.')
 
 _KEEP = []  # generated modules stay loaded (malt caches by code object through weak references)
 BFEAT = converter.Feature.BUILTIN_FUNCTIONS
@@ -68,8 +81,29 @@ X_ENUM_KW = 'no_enumerate_iterable_keyword'          # F08
 X_DYN_ONLY = 'no_dynamic_only_names'                 # F07
 X_EVAL_G_ONLY = 'no_eval_globals_without_locals'     # F28
 X_EVAL_NONE = 'no_eval_none_namespace'               # F29
-# F08, FC14a and FC14b were repaired in /repo (fix: commits); only F07 is still excluded
-ACTIVE_EXCL = {X_DYN_ONLY}
+X_DYN_ONLY_OPERAND = 'no_dynamic_only_names_in_lazy_operand'   # F07 again: operands turned into functions of their own
+X_SUPER_WITH_ITEM = 'no_super_in_with_item'          # FC14c: arguments of a context-manager call stay unconverted
+# F08, FC14a and FC14b were repaired in /repo (fix: commits); F07 (both spellings) and FC14c are excluded
+ACTIVE_EXCL = {X_DYN_ONLY, X_DYN_ONLY_OPERAND}   # FC14c (X_SUPER_WITH_ITEM) is repaired in /repo and generated again
+
+# eval namespace arguments (context cases): how the globals / locals argument is spelled
+G_FORMS = ['omitted', 'none', 'none', 'empty_dict', 'empty_dict', 'empty_dict', 'empty_dict_call', 'empty_dict_subclass', 'empty_dict_var',
+           'empty_dict_var', 'nonempty_other', 'nonempty_shadow', 'globals_call', 'globals_call', 'module_dict', 'falsy_nondict',
+           'truthy_nondict']
+L_FORMS = ['omitted', 'omitted', 'omitted', 'none', 'empty_dict', 'empty_dict', 'empty_mapping', 'bind_zz', 'bind_zz', 'shadow',
+           'locals_call', 'locals_call', 'user_mapping', 'falsy_nonmapping']
+L_FORMS_AFTER_NONE = ['none', 'empty_dict', 'empty_dict', 'empty_mapping', 'bind_zz', 'shadow', 'locals_call', 'user_mapping',
+                      'falsy_nonmapping']
+NS_BOUNDARY = [('empty_dict', 'omitted'), ('empty_dict_var', 'omitted'), ('empty_dict', 'none'), ('none', 'empty_dict'),
+               ('none', 'empty_mapping'), ('none', 'none'), ('empty_dict', 'empty_dict'), ('empty_dict_subclass', 'locals_call'),
+               ('globals_call', 'empty_dict'), ('nonempty_shadow', 'empty_mapping'), ('nonempty_shadow', 'falsy_nonmapping'),
+               ('falsy_nondict', 'omitted'), ('falsy_nondict', 'bind_zz')]
+# syntactic positions of a context-builtin call
+WRAPS = (['plain'] * 8 + ['print_arg'] * 3 + ['print_first', 'print_kwvalue', 'print_star', 'print_nested', 'print_nested'] +
+         ['call_user', 'call_builtin', 'display', 'ifexp', 'boolop', 'if_test', 'while_test', 'for_iter', 'with_item', 'with_body',
+          'try_finally'])
+# positions the converter moves into a function of their own (lambda / loop_test)
+LAZY_WRAPS = ('ifexp', 'boolop', 'while_test')
 
 BUILTINS = {'abs': abs, 'all': all, 'any': any, 'enumerate': enumerate, 'filter': filter, 'float': float, 'int': int,
             'len': len, 'map': map, 'print': print, 'range': range, 'sorted': sorted, 'zip': zip}
@@ -912,7 +946,9 @@ def cover_meta(case):
 # context builtins: generated programs
 
 
-_CTX_PRELUDE = '''import sys
+_CTX_PRELUDE = '''import collections.abc
+import contextlib
+import sys
 G1 = 11
 G2 = 'g'
 _THIS = globals()
@@ -929,6 +965,57 @@ def sel(d, names):
 
 def is_mod(d):
   return d is _THIS
+
+
+def ident(x):
+  return x
+
+
+def first(*a):
+  return a[0]
+
+
+def rec(out, k, L, v):
+  out.append((k, L, v))
+  return True
+
+
+@contextlib.contextmanager
+def cm(v):
+  yield v
+
+
+class NS(dict):
+  pass
+
+
+class EM(collections.abc.Mapping):
+  # an empty (hence falsy) mapping that is not a dict
+
+  def __getitem__(self, k):
+    raise KeyError(k)
+
+  def __len__(self):
+    return 0
+
+  def __iter__(self):
+    return iter(())
+
+
+class UM(collections.abc.Mapping):
+  # a non-empty mapping that is not a dict
+
+  def __init__(self, d):
+    self.d = d
+
+  def __getitem__(self, k):
+    return self.d[k]
+
+  def __len__(self):
+    return len(self.d)
+
+  def __iter__(self):
+    return iter(self.d)
 
 
 def sup(s):
@@ -1025,18 +1112,75 @@ class _PB(object):
       return 'not p'
     return '%s >= 0' % a
 
-  def site(self, depth, kind):
+  def site(self, depth, kind, tags=()):
     self.nsite += 1
-    self.sites[str(self.nsite)] = [depth, kind]
+    self.sites[str(self.nsite)] = [depth, kind, list(tags)]
     self.meta.append('probe:%s@depth%d' % (kind, depth))
     return self.nsite
 
+  def evalns(self, ints, others, inames):
+    """eval with drawn namespace arguments: (value expr, names that must stay syntactically read,
+    lines before, lines after (format with the site number), class tags)."""
+    reads = self.draw(st.sampled_from(['local', 'local', 'local+global', 'global', 'builtin', 'zz', 'zz+global']))
+    expr = {'local': ' + '.join(inames), 'local+global': inames[0] + ' + G1', 'global': 'G1 + 1',
+            'builtin': 'len("abcd") + max(1, 2)', 'zz': 'zz + 1', 'zz+global': 'zz + G1'}[reads]
+    gform = self.draw(st.sampled_from(G_FORMS))
+    if self.draw(st.integers(0, 3)) == 0:
+      # the omitted / None / empty / falsy boundary of both arguments, drawn as pairs
+      gform, lform = self.draw(st.sampled_from(NS_BOUNDARY))
+    elif gform == 'omitted':
+      lform = 'omitted'   # locals can only follow an explicit globals argument (spelled None: form 'none')
+    elif gform == 'none':
+      # None globals + explicit locals: the caller's globals with exactly the given locals
+      lform = self.draw(st.sampled_from(L_FORMS_AFTER_NONE))
+    else:
+      lform = self.draw(st.sampled_from(L_FORMS))
+    pre, post, use = [], [], []
+    if reads in ('local', 'local+global'):
+      use = list(inames) if reads == 'local' else inames[:1]
+    nm = inames[0]
+    if gform == 'empty_dict_var':
+      self.ntmp += 1
+      v = 'ns%d' % self.ntmp
+      pre.append('%s = {}' % v)
+      post.append("out.append(('eval', %%d, 'keys', sorted(%s)))" % v)
+      g = v
+    elif gform == 'falsy_nondict':
+      g = self.draw(st.sampled_from(['[]', '0', "''", '()', 'EM()', 'False']))
+    elif gform == 'truthy_nondict':
+      g = self.draw(st.sampled_from(['[1]', "UM({'G1': 2})", '1']))
+    else:
+      g = {'omitted': None, 'none': 'None', 'empty_dict': '{}', 'empty_dict_call': 'dict()', 'empty_dict_subclass': 'NS()',
+           'nonempty_other': "{'G1': 2}", 'nonempty_shadow': "{%r: -5, 'G1': 2}" % nm, 'globals_call': 'globals()',
+           'module_dict': '_THIS'}[gform]
+    if lform == 'falsy_nonmapping':
+      l = self.draw(st.sampled_from(['0', '[]', "''", 'False']))
+    else:
+      l = {'omitted': None, 'none': 'None', 'empty_dict': '{}', 'empty_mapping': 'EM()', 'bind_zz': "{'zz': %s}" % nm,
+           'shadow': "{%r: 40, 'zz': 1}" % nm, 'locals_call': 'locals()', 'user_mapping': "UM({'zz': %s, %r: 41})" % (nm, nm)}[lform]
+    if lform == 'locals_call' and not use:
+      use = inames[:1]
+    args = [repr(expr)] + ([g] if g is not None else ['None'] if l is not None else []) + ([l] if l is not None else [])
+    tags = ['evalns', 'evalns:g=' + gform, 'evalns:l=' + lform, 'evalns:reads=' + reads]
+    if gform.startswith('empty_dict') and lform in ('omitted', 'none'):
+      tags.append('evalns:empty_globals_only')
+    if gform.startswith('empty_dict') and lform not in ('omitted', 'none'):
+      tags.append('evalns:empty_globals+locals')
+    if gform in ('omitted', 'none') and lform in ('empty_dict', 'empty_mapping'):
+      tags.append('evalns:empty_locals_only')
+    return 'eval(%s)' % ', '.join(args), use, pre, post, tags
+
   def probe(self, ind, depth, ints, others):
-    """ints: definitely-bound int-valued user names; others: other definitely-bound user names."""
+    """ints: definitely-bound int-valued user names; others: other definitely-bound user names.
+
+    A probe is one context-builtin call (the value expression) placed in a drawn syntactic position
+    (the wrapper): directly in out.append(...), nested in the argument list of print(...) / another
+    call / a display / an f-string, in a lazily evaluated operand, in an if / while test, a for
+    iterable, a with item."""
     kinds = ['eval', 'eval', 'eval', 'locals', 'locals', 'globals', 'eval3', 'evalcode', 'other']
     if self.kind in ('method', 'classmethod'):
       kinds += ['super', 'super', 'super', 'supinfo']
-    kinds += ['eval_g', 'eval_none']
+    kinds += ['eval_g', 'eval_none', 'evalns', 'evalns', 'evalns', 'evalns']
     k = self.pick(set(kinds)) if self.draw(st.integers(0, 3)) == 0 else self.draw(st.sampled_from(kinds))
     if self.excl and k in ('eval_g', 'eval_none') and (X_EVAL_G_ONLY if k == 'eval_g' else X_EVAL_NONE) in ACTIVE_EXCL:
       # known findings F28 / F29: redirected to the three-argument form
@@ -1046,8 +1190,9 @@ class _PB(object):
     names = sorted(set([self.pick(ints)] + [self.pick(ints | others) for _ in range(self.draw(st.integers(0, 2)))]))
     inames = [n for n in names if n in ints]
     use = None
+    pre, post, handlers, tags = [], [], (), []
+    sk = 'eval'
     if k == 'eval':
-      L = self.site(depth, 'eval')
       f = self.draw(st.integers(0, 3))
       if f == 0:
         expr = ' + '.join(inames)
@@ -1057,47 +1202,136 @@ class _PB(object):
         expr = '%s + G1' % inames[0]
       else:
         expr = 'len(str(%s)) + max(%s, 0)' % (inames[0], inames[-1])
-      self.emit(ind, "out.append(('eval', %d, eval(%r)))" % (L, expr))
+      val = 'eval(%r)' % expr
       use = names
     elif k == 'evalcode':
-      L = self.site(depth, 'eval')
-      self.emit(ind, "out.append(('eval', %d, eval(compile(%r, '<c14>', 'eval'))))" % (L, '(%s, G2)' % inames[0]))
+      val = "eval(compile(%r, '<c14>', 'eval'))" % ('(%s, G2)' % inames[0])
       use = inames[:1]
     elif k == 'eval3':
-      L = self.site(depth, 'eval')
-      self.emit(ind, "out.append(('eval', %d, eval('G1 + zz + %s', {'G1': 2, '%s': -5}, {'zz': %s})))" % (L, inames[0], inames[0], inames[0]))
+      val = "eval('G1 + zz + %s', {'G1': 2, '%s': -5}, {'zz': %s})" % (inames[0], inames[0], inames[0])
     elif k == 'eval_g':
-      L = self.site(depth, 'eval')
-      self.emit(ind, "out.append(('eval', %d, eval(%r, {%r: -7, 'G1': 1})))" % (L, inames[0] + ' + G1', inames[0]))
+      val = "eval(%r, {%r: -7, 'G1': 1})" % (inames[0] + ' + G1', inames[0])
     elif k == 'eval_none':
-      L = self.site(depth, 'eval')
-      self.emit(ind, "out.append(('eval', %d, eval(%r, None, None)))" % (L, inames[0] + ' + G1'))
+      val = 'eval(%r, None, None)' % (inames[0] + ' + G1')
       use = inames[:1]
+    elif k == 'evalns':
+      val, use, pre, post, tags = self.evalns(ints, others, inames)
+      handlers = ('NameError', 'TypeError')
     elif k == 'locals':
-      L = self.site(depth, 'locals')
-      self.emit(ind, "out.append(('locals', %d, sel(locals(), %r)))" % (L, tuple(names)))
+      sk = 'locals'
+      val = 'sel(locals(), %r)' % (tuple(names),)
       use = names
     elif k == 'globals':
-      L = self.site(depth, 'globals')
-      self.emit(ind, "out.append(('globals', %d, is_mod(globals()), globals()['G1'], 'sel' in globals()))" % L)
+      sk = 'globals'
+      val = "(is_mod(globals()), globals()['G1'], 'sel' in globals())"
     elif k == 'super':
-      L = self.site(depth, 'super')
+      sk = 'super'
       meth = 'w' if self.kind == 'method' else 'c'
-      self.emit(ind, "out.append(('super', %d, super().%s(%s)))" % (L, meth, inames[0]))
+      val = 'super().%s(%s)' % (meth, inames[0])
     elif k == 'supinfo':
-      L = self.site(depth, 'super')
-      self.emit(ind, "out.append(('super', %d, sup(super())))" % L)
-    elif k == 'other':
-      L = self.site(depth, 'other')
-      self.emit(ind, "out.append(('other', %d, Other().k(%s)))" % (L, inames[0]))
-    if use:
-      if self.excl:
-        # known finding F07: a name reached only through eval()/locals() is invisible to the
-        # converter's static analyses, so every probed name is also read syntactically right here
-        self.emit(ind, 'use(%s)' % ', '.join(use))
-        self.excluded[X_DYN_ONLY] = self.excluded.get(X_DYN_ONLY, 0) + 1
-      else:
-        self.meta.append('dynamic_only_names')
+      sk = 'super'
+      val = 'sup(super())'
+    else:
+      sk = 'other'
+      val = 'Other().k(%s)' % inames[0]
+    wrap = self.draw(st.sampled_from(WRAPS))
+    if wrap == 'with_item' and sk == 'super' and self.excl and X_SUPER_WITH_ITEM in ACTIVE_EXCL:
+      # finding FC14c: the arguments of a context-manager call are left unconverted
+      self.excluded[X_SUPER_WITH_ITEM] = self.excluded.get(X_SUPER_WITH_ITEM, 0) + 1
+      wrap = 'with_body'
+    L = self.nsite + 1
+    wg = 'print' if wrap.startswith('print') else wrap
+    self.site(depth, sk, ['%s@%s' % (sk, wg)] + tags + ([k] if k != sk and k != 'evalns' else []))
+    self.meta.append('wrap:' + wrap)
+    for t in tags:
+      self.meta.append(t)
+    lazy = wrap in LAZY_WRAPS
+    if use and self.excl:
+      # known finding F07: a name reached only through eval()/locals() is invisible to the
+      # converter's static analyses, so every probed name is also read syntactically in the same
+      # generated function: right here in the block, or - for operands the converter turns into
+      # functions of their own (conditional expressions, and/or, while tests) - in that operand
+      self.excluded[X_DYN_ONLY] = self.excluded.get(X_DYN_ONLY, 0) + 1
+      if lazy:
+        val = 'first(%s, %s)' % (val, ', '.join(use))
+        self.excluded[X_DYN_ONLY_OPERAND] = self.excluded.get(X_DYN_ONLY_OPERAND, 0) + 1
+    elif use:
+      self.meta.append('dynamic_only_names')
+    body = self.wrapped(wrap, sk, L, val, ints)
+    for ln in pre:
+      self.emit(ind, ln)
+    if handlers:
+      self.emit(ind, 'try:')
+      for rel, ln in body:
+        self.emit(ind + 1 + rel, ln)
+      for h in handlers:
+        self.emit(ind, 'except %s:' % h)
+        self.emit(ind + 1, "out.append((%r, %d, 'raised', %r))" % (sk, L, h))
+    else:
+      for rel, ln in body:
+        self.emit(ind + rel, ln)
+    for ln in post:
+      self.emit(ind, ln % L)
+    if use and self.excl and not lazy:
+      self.emit(ind, 'use(%s)' % ', '.join(use))
+
+  def wrapped(self, wrap, sk, L, val, ints):
+    """-> [(relative indent, line)] placing the value expression `val` in position `wrap`."""
+    d = self.draw
+    done = "out.append((%r, %d, 'printed'))" % (sk, L)
+    if wrap == 'plain':
+      return [(0, 'out.append((%r, %d, %s))' % (sk, L, val))]
+    if wrap == 'print_arg':
+      kw = d(st.sampled_from(['', '', ", sep='|'", ", end=';\\n'", ", sep='', end='\\n'", ', file=sys.stdout', ', flush=True']))
+      return [(0, "print('P', %d, %s%s)" % (L, val, kw)), (0, done)]
+    if wrap == 'print_first':
+      return [(0, "print(%s, 'P', %d)" % (val, L)), (0, done)]
+    if wrap == 'print_kwvalue':
+      f = d(st.sampled_from(["print('P', %d, end=str(%s) + '\\n')", "print('P', %d, 'q', sep=str(%s))", "print('P', %d, 'q', sep=str(%s), end='.\\n')"]))
+      return [(0, f % (L, val)), (0, done)]
+    if wrap == 'print_star':
+      f = d(st.sampled_from(["print('P', %d, *[%s])", "print(*('P', %d, %s), sep='/')", "print('P', %d, **{'end': str(%s) + '\\n'})"]))
+      return [(0, f % (L, val)), (0, done)]
+    if wrap == 'print_nested':
+      f = d(st.sampled_from(["print('P', %d, str(%s))", "print('P', %d, ident(%s))", "print('P', %d, [%s], {1: 2})", "print('P', %d, print(%s))",
+                             "print('P', %d, len(repr(%s)))", "print('P', %d, f'{%s}')"]))
+      return [(0, f % (L, val)), (0, done)]
+    if wrap == 'call_user':
+      f = d(st.sampled_from(['ident(%s)', 'first(%s, 0)', 'ident(x=%s)', 'first(*[%s])']))
+      return [(0, 'out.append((%r, %d, %s))' % (sk, L, f % val))]
+    if wrap == 'call_builtin':
+      f = d(st.sampled_from(['repr(%s)', 'len([%s])', 'sorted([%s])', 'list(map(repr, [%s]))', 'str(%s).upper()']))
+      return [(0, 'out.append((%r, %d, %s))' % (sk, L, f % val))]
+    if wrap == 'display':
+      f = d(st.sampled_from(['[%s]', '{1: %s}', '(%s, 0)', "f'{%s}'", '[%s][0]', '[0, *[%s]]']))
+      return [(0, 'out.append((%r, %d, %s))' % (sk, L, f % val))]
+    if wrap == 'ifexp':
+      f = d(st.sampled_from(["%s if %s else 'no'", "'no' if not (%s) else %s"]))
+      c = self.cond(ints)
+      e = f % ((val, c) if f.startswith('%s if') else (c, val))
+      return [(0, 'out.append((%r, %d, %s))' % (sk, L, e))]
+    if wrap == 'boolop':
+      f = d(st.sampled_from(['(%s) and [%s]', '(not (%s)) or [%s]', '(%s) and [%s] or 0']))
+      return [(0, 'out.append((%r, %d, %s))' % (sk, L, f % (self.cond(ints), val)))]
+    if wrap == 'if_test':
+      return [(0, 'if rec(out, %r, %d, %s):' % (sk, L, val)), (1, "out.append((%r, %d, 'taken'))" % (sk, L))]
+    if wrap == 'while_test':
+      self.ntmp += 1
+      v = 'j%d' % self.ntmp
+      return [(0, '%s = 0' % v), (0, 'while %s < 1 and rec(out, %r, %d, %s):' % (v, sk, L, val)), (1, '%s = %s + 1' % (v, v))]
+    if wrap == 'for_iter':
+      self.ntmp += 1
+      v = 'q%d' % self.ntmp
+      return [(0, 'for %s in [%s]:' % (v, val)), (1, 'out.append((%r, %d, %s))' % (sk, L, v))]
+    if wrap == 'with_item':
+      self.ntmp += 1
+      v = 'z%d' % self.ntmp
+      return [(0, 'with cm(%s) as %s:' % (val, v)), (1, 'out.append((%r, %d, %s))' % (sk, L, v))]
+    if wrap == 'with_body':
+      return [(0, 'with cm(0):'), (1, 'out.append((%r, %d, %s))' % (sk, L, val))]
+    if wrap == 'try_finally':
+      return [(0, 'try:'), (1, 'out.append((%r, %d, %s))' % (sk, L, val)), (0, 'finally:'), (1, 'use()')]
+    raise BuildError('wrap ' + wrap)
 
   def block(self, ind, depth, ints, others, in_loop):
     """Emits 1..4 statements; returns nothing (names bound inside do not escape: conservative)."""
@@ -1172,7 +1406,7 @@ def ctx_programs(draw, max_depth=3, excl=True):
   ind = 2 if kind != 'function' else 1
   pb.block(ind, 0, {'a', 'b', 'n'}, set(), False)
   # make sure something is probed inside a functionalised body
-  if not any(d >= 1 for d, _ in pb.sites.values()):
+  if not any(v[0] >= 1 for v in pb.sites.values()):
     pb.emit(ind, 'for i0 in range(2):')
     pb.emit(ind + 1, 'if i0 + n > 0:')
     pb.probe(ind + 2, 2, {'a', 'b', 'n', 'i0'}, set())
@@ -1187,7 +1421,11 @@ def ctx_programs(draw, max_depth=3, excl=True):
     src = _CTX_PRELUDE + 'def m(n, p, out):\n' + body + '\n'
   inputs = draw(st.lists(st.tuples(st.integers(0, 3), st.booleans()), min_size=2, max_size=3, unique=True))
   route = draw(st.sampled_from(['to_graph', 'to_graph', 'converted_call', 'convert']))
-  case = {'kind': 'ctx', 'entry': kind, 'src': src, 'inputs': [list(i) for i in inputs], 'sites': pb.sites, 'route': route}
+  # print(...) is only substituted when the BUILTIN_FUNCTIONS feature is requested; otherwise the call is
+  # left as written and only its arguments are converted
+  feat = draw(st.integers(0, 1))
+  case = {'kind': 'ctx', 'entry': kind, 'src': src, 'inputs': [list(i) for i in inputs], 'sites': pb.sites, 'route': route,
+          'feat': feat}
   return case, sorted(set(pb.meta)) + ['nstmts=%d' % min(20, len(pb.lines) // 4 * 4)], pb.excluded
 
 
@@ -1202,13 +1440,15 @@ def _ctx_entry(mod, case, converted):
   if not converted:
     return lambda n, p, out: f(*(pre + (n, p, out)))
   route = case.get('route', 'to_graph')
+  feat = case.get('feat', 0)
   if route == 'to_graph':
-    g = malt.to_graph(f)
+    g = malt.to_graph(f, experimental_optional_features=BFEAT if feat else None)
     return lambda n, p, out: g(*(pre + (n, p, out)))
   if route == 'convert':
-    g = malt.convert(recursive=True)(f)
+    g = malt.convert(recursive=True, optional_features=BFEAT if feat else None)(f)
     return lambda n, p, out: g(*(pre + (n, p, out)))
-  opts = converter.ConversionOptions(recursive=True, user_requested=True, internal_convert_user_code=True, optional_features=())
+  opts = converter.ConversionOptions(recursive=True, user_requested=True, internal_convert_user_code=True,
+                                     optional_features=(BFEAT,) if feat else ())
   if kind == 'method':
     bound = pre[0].m
     return lambda n, p, out: api.converted_call(bound, (n, p, out), None, options=opts)
@@ -1221,6 +1461,9 @@ class _Timeout(Exception):
 
 def _run_entry(fn, n, p, limit=None):
   out = []
+  cap = io.StringIO()
+  old = sys.stdout
+  sys.stdout = cap
   try:
     if limit:
       # safety net only: the original terminates by construction, a converted run that does not
@@ -1234,7 +1477,9 @@ def _run_entry(fn, n, p, limit=None):
     oc = ['exc', 'Timeout', _Timeout('converted run exceeded %ss' % limit)]
   except Exception as e:
     oc = ['exc', exc_name(e), e]
-  return oc, [describe(x) for x in out]
+  finally:
+    sys.stdout = old
+  return oc, [describe(x) for x in out], cap.getvalue()
 
 
 def run_ctx(case):
@@ -1252,11 +1497,11 @@ def run_ctx(case):
     except Exception as e:
       return [('ctx:convert:' + harness.exc_bucket(e), {'exc': repr(e)[:400]})], info
     for n, p in case['inputs']:
-      oo, olog = _run_entry(orig, n, p)
+      oo, olog, otext = _run_entry(orig, n, p)
       if oo[0] == 'exc':
         info['slip'] = 'original raised %s' % oo[1]
         break
-      co, clog = _run_entry(conv, n, p, limit=120)
+      co, clog, ctext = _run_entry(conv, n, p, limit=120)
       info['runs'] += 1
       for ent in olog:
         L = str(ent[1][1][1])
@@ -1264,7 +1509,20 @@ def run_ctx(case):
         if d[0] >= 1:
           info['deep_probes'] += 1
           info['kinds'].add(d[1])
+          for t in (d[2] if len(d) > 2 else ()):
+            info['kinds'].add(t + ('' if '@print' not in t else ':feat=%d' % case.get('feat', 0)))
+          if len(ent[1]) > 2 and ent[1][2] == ['str', "'raised'"]:
+            info['kinds'].add('%s:raised:%s' % (d[1], ent[1][3][1].strip("'")))
       if olog == clog and co[0] == 'ok' and co[1:] == oo[1:]:
+        if otext != ctext:
+          # same probe log, different text written by the print(...) calls around the probes
+          ol, cl = otext.splitlines(), ctext.splitlines()
+          i = 0
+          while i < min(len(ol), len(cl)) and ol[i] == cl[i]:
+            i += 1
+          fails.append(('ctx:print:stdout', {'input': [n, p], 'line': i, 'original': ol[i] if i < len(ol) else None,
+                                             'converted': cl[i] if i < len(cl) else None}))
+          break
         continue
       i = 0
       while i < min(len(olog), len(clog)) and olog[i] == clog[i]:
@@ -1325,7 +1583,7 @@ def _do_ctx(acc, case, meta):
     if not info['runs']:
       return
   nt = info['deep_probes'] >= 1
-  cls = ['ctx', 'ctx_entry=' + case['entry'], 'ctx_route=' + case.get('route', 'to_graph')] + list(meta)
+  cls = ['ctx', 'ctx_entry=' + case['entry'], 'ctx_route=' + case.get('route', 'to_graph'), 'ctx_feat=%d' % case.get('feat', 0)] + list(meta)
   cls += ['ctx_executed_deep:' + k for k in sorted(info['kinds'])]
   sample = None
   if nt and acc.classes.get('ctx_samples', 0) < 2:
@@ -1333,7 +1591,7 @@ def _do_ctx(acc, case, meta):
     sample = {'src': case['src'][len(_CTX_PRELUDE):], 'inputs': case['inputs'], 'entry': case['entry']}
     acc.samples.append(sample)
     sample = None
-  acc.case(key=common.h8([case['src'], case['inputs'], case.get('route')]), nontrivial=nt, classes=cls, sample=sample,
+  acc.case(key=common.h8([case['src'], case['inputs'], case.get('route'), case.get('feat', 0)]), nontrivial=nt, classes=cls, sample=sample,
            n=max(1, info['runs']))
   acc.count('ctx_programs')
   for b, d in fails:
